@@ -135,11 +135,12 @@ int Cleaner::CleanDead(const BuildLog::Entries& entries) {
     // - If it has no Node, it is not in the build graph, or the deps log
     //   anymore, hence is stale.
     //
-    // - If it isn't an output or input for any edge, it comes from a stale
-    //   entry in the deps log, but no longer referenced from the build
-    //   graph.
+    // - If it isn't an output, input or validation for any edge, it comes
+    //   from a stale entry in the deps log, but no longer referenced from
+    //   the build graph.
     //
-    if (!n || (!n->in_edge() && n->out_edges().empty())) {
+    if (!n || (!n->in_edge() && n->out_edges().empty() &&
+               n->validation_out_edges().empty())) {
       Remove(i->first.AsString());
     }
   }
